@@ -7,6 +7,7 @@ import LoraVerif.Props.TieA.HandleMacs
 import LoraVerif.Props.TieA.HandleMacsLoop
 import LoraVerif.Props.TieA.PlanMask
 import LoraVerif.Props.TieA.PlanMaskOps
+import LoraVerif.Props.TieA.MacCmd
 /-!
 # C08 — the module `./check C08` builds: the property theorems (`Props/C08.lean`) together with the
 tie-A equalities between the hand model's constants and the items regenerated from the current
